@@ -1,9 +1,11 @@
 package rules
 
 import (
+	"encoding/json"
 	"fmt"
 	"go/token"
 	"go/types"
+	"os"
 	"sort"
 	"strings"
 
@@ -13,17 +15,43 @@ import (
 )
 
 // fn resolves an anchor by its stable name; a missing anchor is an undecided obligation
-// (reported as violation), never a silent pass.
+// (reported as violation), never a silent pass.  Names are the reference names: a function
+// that was merely renamed is still found (engine.ApplyReference).
 func (c *Ctx) fn(rule, name string) *ssa.Function {
-	f := c.P.Func(name)
+	f := c.fnOpt(name)
 	if f == nil {
-		c.R.Fail(rule, "anchor:"+name, "", "anchor function "+name+" not found: the mechanism this rule rests on is gone or renamed; the rule cannot prove the property")
+		c.R.Fail(rule, "anchor:"+name, "", "anchor function "+name+" not found: the mechanism this rule rests on is gone; the rule cannot prove the property")
 	}
 	return f
 }
 
 // fnOpt resolves an anchor without recording a failure.
-func (c *Ctx) fnOpt(name string) *ssa.Function { return c.P.Func(name) }
+func (c *Ctx) fnOpt(name string) *ssa.Function {
+	f := c.P.Func(name)
+	if f != nil {
+		if c.anchorsSeen == nil {
+			c.anchorsSeen = map[string]bool{}
+		}
+		c.anchorsSeen[name] = true
+	}
+	return f
+}
+
+// isAnchor reports whether f is one of the named anchor functions.
+func (c *Ctx) isAnchor(f *ssa.Function, names ...string) bool {
+	for _, n := range names {
+		if g := c.fnOpt(n); g != nil && g == f {
+			return true
+		}
+	}
+	return false
+}
+
+// DumpAnchors writes the anchors this run looked up by name.
+func (c *Ctx) DumpAnchors(path string) {
+	b, _ := json.MarshalIndent(c.anchorsSeen, "", " ")
+	_ = os.WriteFile(path, b, 0o644)
+}
 
 func (c *Ctx) name(f *ssa.Function) string { return c.P.FuncName(f) }
 
